@@ -22,6 +22,9 @@ func solverVersion(bin string) string {
 }
 
 func writeEvidence(cfg *RunConfig, runs []*HarnessRun, reports []*HarnessReport, execs []*Exec, wall float64, inconcl []string, extra ...interface{}) {
+	if repoDir != "/repo" {
+		return // a run against a scratch copy (seeded change, refactoring trial) must not overwrite the evidence of /repo
+	}
 	var rr *ReplayResult
 	violations := 0
 	for _, x := range extra {
